@@ -40,6 +40,12 @@ type arch struct {
 	ended    time.Duration // observed: RunArchetype returned (-1 = not yet)
 	stop     bool
 	ctx      *distsys.MPCalContext
+	// a second life under the same id and monitor (restart after the first one ended)
+	restart    bool
+	restartGap time.Duration
+	endKind2   int
+	endAt2     time.Duration
+	life       int
 }
 
 type monitor struct {
@@ -100,6 +106,12 @@ func (s *sys) generate() {
 		a.startAt = time.Duration(w.Choose(sim.KCfg, 6)) * unit
 		a.endKind = w.Choose(sim.KCfg, 4)
 		a.endAt = time.Duration(3+w.Choose(sim.KCfg, 14)) * unit
+		if a.endKind != endNever && w.Choose(sim.KCfg, 3) == 1 {
+			a.restart = true
+			a.restartGap = time.Duration(1+w.Choose(sim.KCfg, 8)) * unit
+			a.endKind2 = w.Choose(sim.KCfg, 4)
+			a.endAt2 = time.Duration(3+w.Choose(sim.KCfg, 14)) * unit
+		}
 		s.archs = append(s.archs, a)
 	}
 	nd := 1 + w.Choose(sim.KCfg, 3)
@@ -118,6 +130,9 @@ func (s *sys) generate() {
 	}
 	for _, a := range s.archs {
 		fmt.Fprintf(&sb, "| A%d on M%d start@%v %s after %v ", a.id, a.mon, a.startAt, endNames[a.endKind], a.endAt)
+		if a.restart {
+			fmt.Fprintf(&sb, "restarted %v later, then %s after %v ", a.restartGap, endNames[a.endKind2], a.endAt2)
+		}
 	}
 	for i, d := range s.dets {
 		fmt.Fprintf(&sb, "| D%d watches A%d created@%v ", i, d.arch, d.createAt)
@@ -180,16 +195,31 @@ func (s *sys) runArch(a *arch) {
 			distsys.MPCalCriticalSection{Name: "A.l", Body: body},
 			distsys.MPCalCriticalSection{Name: "A.Done", Body: func(distsys.ArchetypeInterface) error { return distsys.ErrDone }}),
 		ProcTable: distsys.MakeMPCalProcTable(), PreAmble: func(distsys.ArchetypeInterface) {}}
-	a.ctx = distsys.NewMPCalContext(tla.MakeNumber(int32(a.id)), ar)
 	w.Go(fmt.Sprintf("A%d", a.id), func() {
 		if a.startAt > 0 {
 			w.Sleep(a.startAt)
 		}
-		a.started = w.Now()
-		_ = s.mons[a.mon].m.RunArchetype(a.ctx)
-		a.ended = w.Now()
-		if a.endKind != endNever {
-			w.Probe("archetype_ended_" + endNames[a.endKind])
+		for {
+			a.ctx = distsys.NewMPCalContext(tla.MakeNumber(int32(a.id)), ar)
+			steps = 0
+			a.ended = -1
+			a.started = w.Now()
+			_ = s.mons[a.mon].m.RunArchetype(a.ctx)
+			a.ended = w.Now()
+			if a.endKind != endNever {
+				w.Probe("archetype_ended_" + endNames[a.endKind])
+			}
+			if !a.restart || a.life > 0 || a.stop {
+				return
+			}
+			// the same archetype id runs again under the same monitor
+			w.Sleep(a.restartGap)
+			if a.stop {
+				return
+			}
+			a.life = 1
+			a.endKind, a.endAt = a.endKind2, a.endAt2
+			w.Probe("archetype_restarted")
 		}
 	})
 }
